@@ -206,9 +206,10 @@ fn month_laws(u: u8, ts: &[i64], ctx: &mut Ctx, kmax: i32) {
             };
             ctx.transitions += 1;
             let d = TimeDelta { months: k, inner: chrono::Duration::zero() };
-            let got = by_unit!(u, U => catch(|| ((DateTime::<U>::new(t) + d).into_i64(), (DateTime::<U>::new(t) - (-d)).into_i64())));
+            // t + d, t - (-d), and with the negative count spelt out in the duration: t - {months: -k}
+            let got = by_unit!(u, U => catch(|| ((DateTime::<U>::new(t) + d).into_i64(), (DateTime::<U>::new(t) - (-d)).into_i64(), (DateTime::<U>::new(t) - TimeDelta { months: -k, inner: chrono::Duration::zero() }).into_i64())));
             ctx.eval(fam, match &got { Outcome::Ok(g) => g.0 as u64, _ => 1 });
-            if !matches!(&got, Outcome::Ok((a, b)) if *a == want && *b == want) {
+            if !matches!(&got, Outcome::Ok((a, b, c)) if *a == want && *b == want && *c == want) {
                 viol(ctx, "t + k months", None, json!({"family": fam, "unit": UNITS[u as usize], "t": t, "months": k}), format!("{want} (chrono, end-of-month clamping)"), format!("{got:?}"));
             }
         }
@@ -500,7 +501,7 @@ fn main() {
     total.sample(json!({"law": "(t+d)-d == t", "unit": "ms", "t": "2024-02-29 12:34:56.789", "d": "-1w2d-1h2m-1s2ms", "holds": true}));
     total.sample(json!({"law": "duration_trunc(3mo)", "t": "2023-05-15 14:30:45", "model": "2023-04-01 00:00:00"}));
     let meta = Meta {
-        rule: "instants: Jan 1, Feb 28/29, Mar 1, Apr 30, Dec 31 of the listed years at 00:00:00, 12:34:56.789 and 23:59:59.999999999 (truncated to the unit) in all four units; durations: every assignment of a coefficient from {-1,0,+2} to each of the ten units (parsed by TimeDelta::parse), month-free ones applied to instants ((t+d)-d==t, (a-b)+b==a), all of them for the group laws (x+(-x)==0, -(-x)==x, (x+y)-y==x, distributivity of integer scaling, commutativity); month counts -k..=k against chrono's checked_add/sub_months; truncation to 1s,1m,15m,1h,1d,1w (i128 floor multiple) and to 1,2,3,4,6,12 months (first instant of the calendar period); times of day built from components (h 0..24, m/s in {0,1,30,59}, sub-second {0,1,999} in milli/micro/nano, whole seconds of the day). Non-trivial = distinct instants / durations / times. Also the difference of every pair of grid instants in every unit: (a-b)+b == a, a-(a-b) == b, a-b exact (datetime-datetime; DESIGN 5.15). Round 10 (DESIGN 5.19): datetime+-mixed - durations with a month count and a fixed part: t +- d equals the month step and the fixed step applied one after the other (either order accepted).".into(),
+        rule: "instants: Jan 1, Feb 28/29, Mar 1, Apr 30, Dec 31 of the listed years at 00:00:00, 12:34:56.789 and 23:59:59.999999999 (truncated to the unit) in all four units; durations: every assignment of a coefficient from {-1,0,+2} to each of the ten units (parsed by TimeDelta::parse), month-free ones applied to instants ((t+d)-d==t, (a-b)+b==a), all of them for the group laws (x+(-x)==0, -(-x)==x, (x+y)-y==x, distributivity of integer scaling, commutativity); month counts -k..=k against chrono's checked_add/sub_months; truncation to 1s,1m,15m,1h,1d,1w (i128 floor multiple) and to 1,2,3,4,6,12 months (first instant of the calendar period); times of day built from components (h 0..24, m/s in {0,1,30,59}, sub-second {0,1,999} in milli/micro/nano, whole seconds of the day). Non-trivial = distinct instants / durations / times. Also the difference of every pair of grid instants in every unit: (a-b)+b == a, a-(a-b) == b, a-b exact (datetime-datetime; DESIGN 5.15). Round 10 (DESIGN 5.19): datetime+-mixed - durations with a month count and a fixed part: t +- d equals the month step and the fixed step applied one after the other (either order accepted). Round 11 (DESIGN 5.20): t - {months: -k} next to t - (-d) in the month family.".into(),
         bounds: json!({"years_all": "1678..=2261", "years_for_full_duration_set": rep_years, "month_free_durations": mf.len(), "core_durations": core.len(), "all_durations": all_d.len(), "month_counts": if run.quick() {240} else {1200}}),
         assumptions: vec![
             "inverse laws are claimed for durations that are whole multiples of the date-time's unit (a finer duration is truncated on every step)".into(),
